@@ -200,23 +200,27 @@ uint64_t vt_mutate_word(uint64_t h) {
 }
 
 #define GB_PAD 64
-typedef struct { size_t bytes; uint64_t magic; } GbHdr;
+/* The canary bytes rotate between allocations (0x5A.., all ones = -1 in every integer width, zero, 0x7F..): an out-of-bounds READ
+ * whose effect depends on the value it finds (a sentinel comparison, a loop bound) then shows up as a difference or as a write. */
+typedef struct { size_t bytes; uint64_t magic; unsigned char before, after; } GbHdr;
+static unsigned gb_ctr = 0;
 void *gb_alloc(size_t n, size_t sz, unsigned char fill) {
+    static const unsigned char PB[4] = {0xA5, 0xFF, 0x00, 0x80}, PA[4] = {0x5A, 0xFF, 0x00, 0x7F};
     size_t bytes = n * sz;
     unsigned char *raw = malloc(sizeof(GbHdr) + GB_PAD + bytes + GB_PAD);
     if (!raw) { fprintf(stderr, "gb_alloc: out of memory\n"); exit(2); }
-    GbHdr *h = (GbHdr *)raw; h->bytes = bytes; h->magic = 0xC0FFEE1234ULL;
-    memset(raw + sizeof(GbHdr), 0xA5, GB_PAD);
+    GbHdr *h = (GbHdr *)raw; h->bytes = bytes; h->magic = 0xC0FFEE1234ULL; h->before = PB[gb_ctr % 4]; h->after = PA[gb_ctr % 4]; gb_ctr++;
+    memset(raw + sizeof(GbHdr), h->before, GB_PAD);
     memset(raw + sizeof(GbHdr) + GB_PAD, fill, bytes);
-    memset(raw + sizeof(GbHdr) + GB_PAD + bytes, 0x5A, GB_PAD);
+    memset(raw + sizeof(GbHdr) + GB_PAD + bytes, h->after, GB_PAD);
     return raw + sizeof(GbHdr) + GB_PAD;
 }
 int gb_ok(void *p) {
     unsigned char *u = (unsigned char *)p - GB_PAD; GbHdr *h = (GbHdr *)(u - sizeof(GbHdr));
     if (h->magic != 0xC0FFEE1234ULL) return 0;
-    for (int i = 0; i < GB_PAD; i++) if (u[i] != 0xA5) return 0;
+    for (int i = 0; i < GB_PAD; i++) if (u[i] != h->before) return 0;
     unsigned char *e = (unsigned char *)p + h->bytes;
-    for (int i = 0; i < GB_PAD; i++) if (e[i] != 0x5A) return 0;
+    for (int i = 0; i < GB_PAD; i++) if (e[i] != h->after) return 0;
     return 1;
 }
 void gb_free(void *p) { if (p) free((unsigned char *)p - GB_PAD - sizeof(GbHdr)); }
